@@ -31,24 +31,12 @@ Theorem C07_sent_iff_flags : forall w c,
 Proof. exact sent_iff_flags. Qed.
 Print Assumptions C07_sent_iff_flags.
 
-(* ---- exactly once unless claimed.
-   Full-strength statement of the property (claimed = truthy return of a packet/lludp/rlv hook,
-   take, drop, command channel):
-       forall w c, unclaimed' c = true -> count is_orig (hp_trace w c) = 1
-   with unclaimed' = cfg_unclaimed without the exclusion of [KRlv 0].  That is FALSE of the
-   current code (C07_exactly_once_rlv_empty_refuted); it is proved under exactly the hypothesis
-   that excludes an RLV chat with an empty command list ([kind_unclaimed (KRlv 0) = false]). *)
-Theorem C07_exactly_once_partial : forall w c, cfg_unclaimed c = true -> count is_orig (hp_trace w c) = 1.
+(* ---- exactly once unless claimed (claimed = truthy return of a packet/lludp/rlv hook, take,
+   drop, or the command channel).  Full strength since /repo 40d86e5: an RLV owner-say with an
+   empty command list is an ordinary message ([kind_unclaimed (KRlv n) = true] for every n). *)
+Theorem C07_exactly_once : forall w c, cfg_unclaimed c = true -> count is_orig (hp_trace w c) = 1.
 Proof. exact exactly_once. Qed.
-Print Assumptions C07_exactly_once_partial.
-
-Theorem C07_exactly_once_rlv_empty_refuted : exists w c,
-  mmods c = [] /\ msubs c = [] /\
-  hp_status w c = StHandled /\ count is_orig (hp_trace w c) = 0 /\
-  finalized (hp_final w c) = false /\ dropped (hp_final w c) = false /\
-  count (fun e => match e with EAck => true | _ => false end) (hp_trace w c) = 0.
-Proof. exact exactly_once_rlv_empty_refuted. Qed.
-Print Assumptions C07_exactly_once_rlv_empty_refuted.
+Print Assumptions C07_exactly_once.
 
 (* semantic form: whenever the proxy reaches its final forwarding step and the message was not
    dropped, it is on the wire exactly once - this one holds for every kind of message *)
@@ -109,32 +97,22 @@ Theorem C07_copy_sendable : forall m,
 Proof. exact copy_sendable. Qed.
 Print Assumptions C07_copy_sendable.
 
-(* ---- the proxy never trips its own guard / never wedges.
-   Full-strength statement:   forall w c, hp_status w c <> StEscaped
-   FALSE of the current code for command-channel chat (C07_proxy_guard_refuted: the second,
-   still unguarded drop_message in AddonManager.handle_lludp_message; the one in the tail of
-   handle_proxied_packet was fixed by /repo 03e3597 and is covered by the theorem below).
-   Proved for every other message: no exception escapes and the logger runs exactly once. *)
-Theorem C07_proxy_never_trips_own_guard_partial : forall w c, mkind c <> KCommand ->
+(* ---- the proxy never trips its own guard / never wedges: for EVERY message (command-channel
+   chat included since /repo d9b7ff1; the tail of handle_proxied_packet since 03e3597) no exception
+   leaves handle_proxied_packet, and the message logger runs exactly once unless a packet hook
+   claimed the datagram before it was parsed. *)
+Theorem C07_proxy_never_trips_own_guard : forall w c,
   hp_status w c <> StEscaped /\ count is_escape (hp_trace w c) = 0.
-Proof. exact no_escape_trace. Qed.
-Print Assumptions C07_proxy_never_trips_own_guard_partial.
+Proof. exact never_escapes. Qed.
+Print Assumptions C07_proxy_never_trips_own_guard.
 
-Theorem C07_escape_only_command : forall w c, hp_status w c = StEscaped -> mkind c = KCommand.
-Proof. exact escape_only_command. Qed.
-Print Assumptions C07_escape_only_command.
-
-Theorem C07_logger_runs_partial : forall w c, mkind c <> KCommand -> hp_status w c <> StPktClaimed ->
-  count is_log (hp_trace w c) = 1.
+Theorem C07_logger_runs : forall w c, hp_status w c <> StPktClaimed -> count is_log (hp_trace w c) = 1.
 Proof. exact logger_runs. Qed.
-Print Assumptions C07_logger_runs_partial.
+Print Assumptions C07_logger_runs.
 
-Theorem C07_proxy_guard_refuted : exists w c,
-  hp_status w c = StEscaped /\ count is_escape (hp_trace w c) = 1 /\ count is_log (hp_trace w c) = 0.
-Proof. exact proxy_guard_refuted. Qed.
-Print Assumptions C07_proxy_guard_refuted.
-
-(* the guard also trips (swallowed by the proxy's own try/except) inside the RLV loop *)
+(* NOTE, not repaired and not a violation of the clauses above: inside the RLV loop the proxy does still call
+   drop_message twice when two commands of one chat are handled; its own try/except swallows the
+   RuntimeError, the chat then counts as "not all handled" and lludp hooks run on the dropped message *)
 Theorem C07_rlv_double_drop_trips_guard :
   In EExcRlv (hp_trace w_empty cfg_rlv_two_handled) /\
   In (EHook PtLludp 0 None) (hp_trace w_empty cfg_rlv_two_handled) /\
@@ -149,7 +127,7 @@ Theorem C07_history_at_most_once : forall cs w,
 Proof. exact history_at_most_once. Qed.
 Print Assumptions C07_history_at_most_once.
 
-Theorem C07_history_never_wedged : forall cs w, Forall (fun c => mkind c <> KCommand) cs ->
+Theorem C07_history_never_wedged : forall cs w,
   Forall (fun r => snd (snd r) <> StEscaped /\ count is_escape (fst r) = 0 /\
                    (snd (snd r) <> StPktClaimed -> count is_log (fst r) = 1))
          (snd (run_history w cs)).
@@ -181,6 +159,17 @@ Example C07_ex_take_then_drop : hp_trace w_one_sub cfg_take_then_drop =
   [ESub HSessNamed 1; EOp Take true; EHook PtLludp 0 None; EAck; EOp Drop true; ELog true true true 0]
   /\ hp_status w_one_sub cfg_take_then_drop = StForward.
 Proof. exact ex_take_then_drop. Qed.
+
+(* regression instances of the two repaired defects *)
+Example C07_ex_cmd_sub_drops : hp_trace w_one_sub cfg_cmd_sub_drops =
+  [ESub HSessNamed 1; EOp Drop true; ECmd; ELog true true false 0]
+  /\ hp_status w_one_sub cfg_cmd_sub_drops = StHandled.
+Proof. exact ex_cmd_sub_drops. Qed.
+
+Example C07_ex_rlv_empty : cfg_unclaimed cfg_rlv_empty = true /\
+  hp_trace w_empty cfg_rlv_empty = [ELog false false false 0; EOrig 0]
+  /\ hp_status w_empty cfg_rlv_empty = StForward.
+Proof. exact ex_rlv_empty. Qed.
 
 Example C07_ex_no_resurrection :
   apply_ops [SendOrig; Drop; SendOrig; Take; SendCopy; Drop] (wire_msg true true)
